@@ -864,15 +864,15 @@ func runSSCase(w *bufio.Writer, seed uint64, idx int, r *u.Rng, script *ssScript
 		c.fail("sendstream/panic", "bubble: "+err.Error())
 		return false, st
 	}
-	fmt.Fprintf(w, "CASE %d %s\n", b2i(c.nFrames > 0), u.App("SSCase", u.Z(c.sid), u.B(c.rsa), u.Z(c.swin), u.Z(c.cwin),
+	fmt.Fprintf(w, "CASE %d %s\n", ssB2i(c.nFrames > 0), u.App("SSCase", u.Z(c.sid), u.B(c.rsa), u.Z(c.swin), u.Z(c.cwin),
 		u.List(c.ops), final, u.B(c.panicked)))
 	if idx < 2 {
 		fmt.Fprintf(w, "SAMPLE\tsid=%d rsa=%v swin=%d cwin=%d ops=[%s]\n", c.sid, c.rsa, c.swin, c.cwin, strings.Join(c.desc, " "))
 	}
-	return c.nFrames > 0, [4]int{c.nFrames, c.nRetx, b2i(c.reset), b2i(c.completions == 1)}
+	return c.nFrames > 0, [4]int{c.nFrames, c.nRetx, ssB2i(c.reset), ssB2i(c.completions == 1)}
 }
 
-func b2i(b bool) int {
+func ssB2i(b bool) int {
 	if b {
 		return 1
 	}
